@@ -11,6 +11,7 @@ import Driver.OpsObs
 import Driver.OpsFS
 import Driver.OpsBind
 import Driver.OpsAgg
+import Driver.OpsConstruct
 
 open Lean DI DI.Codec
 
@@ -34,6 +35,9 @@ def dispatch (op : String) (a : Json) : Except String Json :=
   | some r => r
   | none =>
   match DI.Ops.aggOp op a with
+  | some r => r
+  | none =>
+  match DI.Ops.constructOp op a with
   | some r => r
   | none => .error s!"unknown op {op}"
 
